@@ -70,7 +70,10 @@ func (e *Engine) callBuiltin(b *ssa.Builtin, args []Value, site ssa.CallInstruct
 			}
 			return sliceV{a: ext}
 		}
-		nc := 2*cap(s.a) + len(add)
+		// capacity growth follows the Go runtime (growslice + size classes), because whether a
+		// later append writes in place — and so aliases an earlier slice — depends on it
+		et0 := under(site.Value().Type()).(*types.Slice).Elem()
+		nc := goGrowCap(cap(s.a), n+len(add), int(goSizes.Sizeof(et0)))
 		na := make([]Value, n+len(add), nc)
 		copy(na, s.a)
 		for i, v := range add {
@@ -171,4 +174,40 @@ func (e *Engine) callBuiltin(b *ssa.Builtin, args []Value, site ssa.CallInstruct
 		return &hostObj{tag: "deferstack", v: fr.defers}
 	}
 	panic(fmt.Sprintf("builtin %s on %T not supported", b.Name(), args[0]))
+}
+
+var goSizes = types.SizesFor("gc", "amd64")
+
+var goSizeClasses = []int{0, 8, 16, 24, 32, 48, 64, 80, 96, 112, 128, 144, 160, 176, 192, 208, 224, 240, 256, 288, 320, 352, 384, 416, 448, 480, 512, 576, 640, 704, 768, 896, 1024, 1152, 1280, 1408, 1536, 1792, 2048, 2304, 2688, 3072, 3200, 3456, 4096, 4864, 5376, 6144, 6528, 6784, 6912, 8192, 9472, 9728, 10240, 10880, 12288, 13568, 14336, 16384, 18432, 19072, 20480, 21760, 24576, 27264, 28672, 32768}
+
+// goGrowCap mirrors runtime.growslice's capacity computation (go1.24, 64-bit).
+func goGrowCap(oldCap, newLen, elemSize int) int {
+	newcap := newLen
+	doublecap := oldCap + oldCap
+	if newLen <= doublecap {
+		const threshold = 256
+		if oldCap < threshold {
+			newcap = doublecap
+		} else {
+			newcap = oldCap
+			for newcap < newLen {
+				newcap += (newcap + 3*threshold) >> 2
+			}
+		}
+	}
+	if elemSize <= 0 {
+		return newcap
+	}
+	mem := newcap * elemSize
+	if mem <= 32768 {
+		for _, c := range goSizeClasses {
+			if c >= mem {
+				mem = c
+				break
+			}
+		}
+	} else {
+		mem = (mem + 8191) &^ 8191
+	}
+	return mem / elemSize
 }
